@@ -45,6 +45,32 @@ CLAIMS['C06'] = dict(
   note='Not decided: finiteness of the returned cores, tightness of m, index values beyond being copies of arange(n_k). '
        'Trusted: stop-writer table frozen from the documented protocol; summary axiom of utils._maxvol (validated by C08).')
 
+CLAIMS['C12'] = dict(
+  technique='callability (inspect.signature binding of resolved NumPy/SciPy calls) + symbolic shape typing + guard/domain rules',
+  text='Decides the structural part only: every NumPy/SciPy/opt_einsum call of func.py, func_full.py, grid.py binds against '
+       'the installed signatures and exists; the basis recurrence, coefficient contractions, DCT axis, even-coefficient '
+       'slices, dense siblings and the least-squares fit are dimension-consistent for symbolic sizes n_k >= 2; func_int, '
+       'func_gets and func_int_general return well-formed tensors with the expected mode sizes; the outside-the-box test '
+       'has both sides and keeps the fill value; the documented rejections (asymmetric box, unknown kind) are in place.',
+  note='Not decided (numerical core of the property): exactness on polynomials, differentiation matrices, fit accuracy, '
+       'agreement of values between TT and dense routines.')
+CLAIMS['C14'] = dict(
+  technique='RNG provenance + symbolic shape/kind typing + normalisation dataflow of p= + pivot typestate',
+  text='Decides the structural part only: every draw of the samplers comes from teneva._rand(seed); every sampler returns '
+       '[m, d] of the right kind and every store fits its slot; the p= vector of every choice() is non-negative, divided '
+       'by its own sum and as long as the population; the marginal / conditional contractions are dimension consistent; '
+       'sample_square orthogonalises to core 0, reads the first marginal from core 0 and sweeps right over '
+       'right-orthogonal cores; the LHS remainder is drawn without replacement and columns have length m.',
+  note='Not decided: that the conditionals multiply to the tensor entry (the distribution itself), uniqueness in '
+       'distribution, goodness of fit.')
+CLAIMS['C20'] = dict(
+  technique='symbolic ndim/shape typing of the least-squares operands and of the producer/consumer layout',
+  text='Decides the structural part only: the operand handed to the least-squares solver in svd_incomplete is a matrix and '
+       'the right-hand side 1-/2-D (the defect that made the function raise for every input); contractions on the path '
+       'are consistent where typed; the result is a list of d three-axis float cores; sample_tt returns '
+       '(int [rows,d], [d+1], [d]) as the consumer expects.',
+  note='Not decided: recovery of the sampled tensor (numerical, generic), the block layout values.')
+
 _PENDING = 'check not built yet in this session (see DESIGN.md section 7 build order); not claimed'
 NOT_APPLICABLE = {p: _PENDING for p in
                   ['C01', 'C02', 'C03', 'C04', 'C05', 'C06', 'C07', 'C08', 'C11', 'C12', 'C13', 'C14',
